@@ -332,8 +332,7 @@ Hwrite(int32 access_id, int32 length, const void *data)
         g_io.end = g_io.pos;
     return length;
 }
-/* HDmemfill: num_items copies of the item.  cbmc: only the ghost item (the one holding the ghost request element, or the
-   ghost pixel column in a fill line) is materialised -- the caller's clauses only ever look at that item. */
+/* HDmemfill: num_items copies of the item (native: the loop; cbmc: loop-free partial materialisation, see below) */
 int32 g_fill_item;
 int   g_il_may_fail; /* GRIil_convert may fail (its six work arrays cannot be allocated) */
 void *
@@ -341,8 +340,18 @@ HDmemfill(void *dest, const void *src, uint32 item_size, uint32 num_items)
 {
     H4V_CHECK(item_size == RW_PS, "HDmemfill: one pixel per item");
 #ifdef H4V_CBMC
+    /* loop-free: the first RW_MAXDIM items (a fill line is completely materialised: its bytes are written at shifted
+       columns) and the ghost item (the caller's buffer holds up to 9 items, only the ghost one is looked at) */
+    if (num_items > 0)
+        memcpy((uint8 *)dest, src, RW_PS);
+    if (num_items > 1)
+        memcpy((uint8 *)dest + RW_PS, src, RW_PS);
+    if (num_items > 2)
+        memcpy((uint8 *)dest + 2 * RW_PS, src, RW_PS);
+    if (num_items > 3)
+        memcpy((uint8 *)dest + 3 * RW_PS, src, RW_PS);
     if (g_fill_item >= 0 && (uint32)g_fill_item < num_items)
-        memcpy((uint8 *)dest + (uint32)g_fill_item * item_size, src, item_size);
+        memcpy((uint8 *)dest + (uint32)g_fill_item * RW_PS, src, RW_PS);
 #else
     for (uint32 k = 0; k < num_items; k++)
         memcpy((uint8 *)dest + k * item_size, src, item_size);
@@ -384,16 +393,33 @@ Hgetelement(int32 file_id, uint16 tag, uint16 ref, uint8 *data)
     return g_io.put_len;
 }
 
-/* ---------------- tbbt: the image's attribute tree holds at most the fill-value attribute (A-TBBT) */
+/* ---------------- tbbt: the attribute tree (A-TBBT: a finite map index -> attribute, iterated in index order)
+   image I/O runs: at most the fill-value attribute;  attribute runs (RW_ATTRS): up to AT_MAX attributes + one insertion */
+#define AT_MAX 2
+int        g_nat;           /* attributes in the tree */
+at_info_t  g_at[AT_MAX];
+TBBT_NODE  g_atn[AT_MAX];
+at_info_t *g_ins_item;      /* item given to tbbtdins */
+TBBT_NODE  g_ins_node;
+int        g_ins_n;
+int        g_ins_may_fail;
 TBBT_NODE *
 tbbtfirst(TBBT_NODE *root)
 {
     (void)root;
+#ifdef RW_ATTRS
+    return g_nat > 0 ? &g_atn[0] : NULL;
+#else
     return g_attr_present ? &g_attr_node : NULL;
+#endif
 }
 TBBT_NODE *
 tbbtnext(TBBT_NODE *node)
 {
+#ifdef RW_ATTRS
+    if (node == &g_atn[0] && g_nat > 1)
+        return &g_atn[1];
+#endif
     (void)node;
     return NULL;
 }
@@ -402,9 +428,34 @@ tbbtdfind(TBBT_TREE *tree, void *key, TBBT_NODE **pp)
 {
     (void)tree;
     (void)pp;
+#ifdef RW_ATTRS
+    if (g_nat > 0 && *(int32 *)key == g_at[0].index)
+        return &g_atn[0];
+    if (g_nat > 1 && *(int32 *)key == g_at[1].index)
+        return &g_atn[1];
+    if (g_ins_n > 0 && g_ins_item != NULL && *(int32 *)key == g_ins_item->index)
+        return &g_ins_node;
+#else
     if (g_attr_present && *(int32 *)key == g_attr.index)
         return &g_attr_node;
+#endif
     return NULL;
+}
+TBBT_NODE *
+tbbtdins(TBBT_TREE *tree, void *item, void *key)
+{
+    (void)tree;
+    (void)key;
+    g_ins_n++;
+    if (g_ins_may_fail) {
+        H4V_ND(int, ins_fault);
+        if (ins_fault)
+            return NULL;
+    }
+    g_ins_item      = (at_info_t *)item;
+    g_ins_node.data = item;
+    g_ins_node.key  = item;
+    return &g_ins_node;
 }
 /* names in this unit have at most 10 characters: exact comparison, unrolled (cbmc's strcmp model needs unwinding) */
 static int
@@ -419,11 +470,36 @@ rw_strcmp(const char *a, const char *b)
 #undef RW_S
     return 0;
 }
+static size_t
+rw_strlen(const char *a)
+{
+#define RW_L(k)                                                                                                          \
+    if (a[k] == 0)                                                                                                       \
+        return k;
+    RW_L(0) RW_L(1) RW_L(2) RW_L(3) RW_L(4) RW_L(5) RW_L(6) RW_L(7) RW_L(8) RW_L(9)
+#undef RW_L
+    return 10;
+}
+static char *
+rw_strcpy(char *d, const char *a)
+{
+#define RW_C(k)                                                                                                          \
+    d[k] = a[k];                                                                                                         \
+    if (a[k] == 0)                                                                                                       \
+        return d;
+    RW_C(0) RW_C(1) RW_C(2) RW_C(3) RW_C(4) RW_C(5) RW_C(6) RW_C(7) RW_C(8) RW_C(9) RW_C(10)
+#undef RW_C
+    return d;
+}
 #define strcmp rw_strcmp
+#define strlen rw_strlen
+#define strcpy rw_strcpy
 
 #include "mfgr.c"
 
 #undef strcmp
+#undef strlen
+#undef strcpy
 
 /* ---------------- contract vocabulary */
 /* interlace address maps (copied from units/mfgr_u.c; element index in components) */
@@ -487,7 +563,7 @@ int GRreadimage(int32 riid, int32 start[2], int32 in_stride[2], int32 count[2], 
     __CPROVER_ensures(!g_io.failed || __CPROVER_return_value == FAIL)
     /* the addressing: request element (i,j) is the pixel at column start[X]+i*stride[X] of row start[Y]+j*stride[Y];
        the destination is dense in the requested interlace */
-    __CPROVER_ensures(__CPROVER_return_value == FAIL || !g_has_data || !RW_GHOST_REQ ||
+    __CPROVER_ensures(__CPROVER_return_value == FAIL || !g_has_data || !RW_GHOST_REQ || !RW_INSIDE ||
                       ((const uint8 *)data)[RW_BUFIDX(g_ri->im_il)] == g_disk[RW_PIXOFF(g_i, g_j) + g_c * RW_CS + g_bb])
     /* an image that was never written delivers the fill value */
     __CPROVER_ensures(__CPROVER_return_value == FAIL || g_has_data || !RW_GHOST_REQ ||
@@ -567,6 +643,68 @@ int GRgetlutinfo(int32 lutid, int32 *ncomp, int32 *nt, int32 *il, int32 *nentrie
     __CPROVER_ensures(__CPROVER_return_value == FAIL || LUT_NONE(g_ri) ||
                       (*ncomp == g_ri->lut_dim.ncomps && *nentries == g_ri->lut_dim.xdim && *nt == g_ri->lut_dim.nt &&
                        *il == (int32)g_ri->lut_dim.il));
+
+/* ---- attributes (C10): in-memory bookkeeping of GRsetattr / GRattrinfo on the image's attribute list */
+#define AT_NAMECAP 4  /* names of at most 3 characters */
+#define AT_DATACAP 16 /* values of at most 16 bytes */
+int    g_match;       /* index in g_at[] of the attribute whose name equals `name`, or -1 (computed by the harness) */
+int    g_oth;         /* index in g_at[] of another attribute (ghost), or -1 */
+/* entry state (snapshots taken by the harness) */
+int32  g_o_cnt;                                  /* lattr_count */
+int32  g_o_nt[AT_MAX], g_o_len[AT_MAX], g_o_index[AT_MAX];
+uint8  g_o_byte[AT_MAX];                          /* byte g_k of the value */
+void  *g_o_data[AT_MAX];
+unsigned g_o_attrmod;
+#define AT_SIZE(nt, n) ((n)*DFKNTsize(((nt) | DFNT_NATIVE) & (~DFNT_LITEND)))
+#define AT_ARGS_OK (id == RW_RIID && name != NULL && data != NULL && count >= 1 && count <= MAX_ORDER && DFKNTsize(attr_nt) != FAIL)
+#define AT_UNCHANGED(k)                                                                                                  \
+    (g_at[k].nt == g_o_nt[k] && g_at[k].len == g_o_len[k] && g_at[k].index == g_o_index[k] && g_at[k].data == g_o_data[k] &&  \
+     (g_at[k].data == NULL || g_k >= AT_SIZE(g_o_nt[k], g_o_len[k]) || ((const uint8 *)g_at[k].data)[g_k] == g_o_byte[k]))
+
+int GRsetattr(int32 id, const char *name, int32 attr_nt, int32 count, const void *data)
+    __CPROVER_requires(g_ri != NULL && g_ri->gr_ptr == g_gr && g_nat >= 0 && g_nat <= AT_MAX && g_ri->lattr_count == g_nat)
+    __CPROVER_requires(g_match >= -1 && g_match < g_nat && g_oth >= -1 && g_oth < g_nat && (g_oth == -1 || g_oth != g_match))
+    __CPROVER_requires(g_k >= 0 && g_ins_n == 0)
+    __CPROVER_assigns(g_io, g_ins_n, g_ins_item, g_ins_node; g_at[0], g_at[1]; g_ri->attr_modified, g_ri->meta_modified, g_ri->lattr_count,
+                      g_gr->gr_modified; g_at[0].data != NULL: __CPROVER_object_whole(g_at[0].data); g_at[1].data != NULL: __CPROVER_object_whole(g_at[1].data))
+    __CPROVER_frees(g_at[0].data, g_at[1].data)
+    __CPROVER_ensures(__CPROVER_return_value == SUCCEED || __CPROVER_return_value == FAIL)
+    __CPROVER_ensures(AT_ARGS_OK || __CPROVER_return_value == FAIL)
+    /* existing name, same number type: THAT attribute gets the new count and value, keeps its type and its index; nothing is
+       appended */
+    __CPROVER_ensures(__CPROVER_return_value == FAIL || g_match < 0 ||
+                      (g_at[g_match].len == count && g_at[g_match].nt == attr_nt && attr_nt == g_o_nt[g_match] &&
+                       g_at[g_match].index == g_o_index[g_match] && g_ri->lattr_count == g_o_cnt && g_ins_n == 0 &&
+                       g_at[g_match].data != NULL &&
+                       (g_k >= AT_SIZE(attr_nt, count) || ((const uint8 *)g_at[g_match].data)[g_k] == ((const uint8 *)data)[g_k])))
+    /* ... and is marked for writing at GRend */
+    __CPROVER_ensures(__CPROVER_return_value == FAIL || g_match < 0 ||
+                      (g_at[g_match].data_modified == TRUE && g_ri->attr_modified == TRUE && g_gr->gr_modified == TRUE))
+    /* existing name, other number type: refused (the interface forbids changing the type), the old value stays */
+    __CPROVER_ensures(g_match < 0 || !AT_ARGS_OK || attr_nt == g_o_nt[g_match] || (__CPROVER_return_value == FAIL && AT_UNCHANGED(g_match)))
+    /* every other attribute is untouched, whatever happens */
+    __CPROVER_ensures(g_oth < 0 || AT_UNCHANGED(g_oth))
+    /* a failed call changes no attribute and no count */
+    __CPROVER_ensures(__CPROVER_return_value == SUCCEED || g_match < 0 || g_at[g_match].data == NULL || AT_UNCHANGED(g_match))
+    __CPROVER_ensures(__CPROVER_return_value == SUCCEED || g_ri->lattr_count == g_o_cnt)
+    /* new name: appended with the next index, type, count and value as given; image marked modified */
+    __CPROVER_ensures(__CPROVER_return_value == FAIL || g_match >= 0 ||
+                      (g_ins_n == 1 && g_ins_item != NULL && g_ins_item->index == g_o_cnt && g_ins_item->nt == attr_nt &&
+                       g_ins_item->len == count && g_ri->lattr_count == g_o_cnt + 1 && g_ins_item->data != NULL &&
+                       rw_strcmp(g_ins_item->name, name) == 0 &&
+                       (g_k >= AT_SIZE(attr_nt, count) || ((const uint8 *)g_ins_item->data)[g_k] == ((const uint8 *)data)[g_k]) &&
+                       g_ins_item->data_modified == TRUE && g_ins_item->new_at == TRUE &&
+                       g_ri->attr_modified == TRUE && g_ri->meta_modified == TRUE && g_gr->gr_modified == TRUE));
+
+int GRattrinfo(int32 id, int32 index, char *name, int32 *attr_nt, int32 *count)
+    __CPROVER_requires(g_ri != NULL && g_ri->gr_ptr == g_gr && g_nat >= 0 && g_nat <= AT_MAX && g_ri->lattr_count == g_nat)
+    __CPROVER_requires(name != NULL && attr_nt != NULL && count != NULL)
+    __CPROVER_requires(g_nat < 1 || g_at[0].index == 0)
+    __CPROVER_requires(g_nat < 2 || g_at[1].index == 1)
+    __CPROVER_assigns(*attr_nt, *count, __CPROVER_object_upto(name, AT_NAMECAP))
+    __CPROVER_ensures(__CPROVER_return_value == ((id == RW_RIID && index >= 0 && index < g_nat) ? SUCCEED : FAIL))
+    __CPROVER_ensures(__CPROVER_return_value == FAIL ||
+                      (*attr_nt == g_at[index].nt && *count == g_at[index].len && rw_strcmp(name, g_at[index].name) == 0));
 
 #ifdef H4V_NATIVE
 #include "h4v_native_wrap.h"
@@ -754,9 +892,15 @@ mk_fill_attr(void)
 #else
 #define RW_REQ_RIID(nd) RW_RIID
 #endif
+#ifdef RW_XDIM /* image width constant of the run (fill lines get a constant size) */
+#define RW_REQ_XDIM(nd) RW_XDIM
+#else
+#define RW_REQ_XDIM(nd) (nd)
+#endif
 /* request: start in -1..4, stride in 0..3 (or no stride array), count in 0..3 */
 #define MK_REQUEST                                                                                                       \
-    H4V_ND(int32, xdim);                                                                                                 \
+    H4V_ND(int32, xdim_nd);                                                                                              \
+    int32 xdim = RW_REQ_XDIM(xdim_nd);                                                                                   \
     H4V_ND(int32, ydim);                                                                                                 \
     H4V_ND(int32, sx);                                                                                                   \
     H4V_ND(int32, sy);                                                                                                   \
@@ -818,6 +962,15 @@ h_GRreadimage(void)
 #endif
     H4V_ASSUME(data != NULL);
     H4V_ASSUME(0 <= g_c && g_c < RW_NCOMP && 0 <= g_bb && g_bb < RW_CS && g_i >= 0 && g_j >= 0 && g_i < RW_MAXCNT && g_j < RW_MAXCNT);
+    /* prior content of the caller's buffer: a named value at the ghost byte (cbmc) / everywhere (replay), so that a byte
+       that is never delivered is noticed natively too */
+    H4V_ND(uint8, data_init);
+#ifdef H4V_CBMC
+    if (g_i < cx && g_j < cy)
+        data[IL_IDX(g_ri->im_il, g_i, g_j, g_c, cx, cy, RW_NCOMP) * RW_CS + g_bb] = data_init;
+#else
+    memset(data, data_init, (size_t)total);
+#endif
     /* fill model: the ghost request element */
     g_fill_item = g_j * cx + g_i;
     g_fill_exp  = g_attr_present ? g_attr_data[g_c * RW_CS + g_bb] : 0;
@@ -830,7 +983,9 @@ h_GRreadimage(void)
     H4V_COVER(r == SUCCEED && g_has_data && stride_null && cx < xdim, "read: solid block, no stride array");
     H4V_COVER(r == SUCCEED && g_has_data && tx == 2 && ty == 3 && cx > 1 && !stride_null, "read: strides 2 x 3");
     H4V_COVER(r == SUCCEED && g_has_data && tx == 3 && ty == 1 && cy > 1 && !stride_null, "read: strides 3 x 1");
+#if !defined(RW_CONV) || RW_CONV == 1
     H4V_COVER(r == SUCCEED && g_io.nconv > 0, "read: with number-type conversion");
+#endif
 #endif
 #if !defined(RW_HASDATA) || RW_HASDATA == 0
     H4V_COVER(r == SUCCEED && !g_has_data && g_attr_present, "read: no data, fill value attribute");
@@ -853,6 +1008,12 @@ h_GRwriteimage(void)
 #else
     H4V_ASSUME(inside);
 #endif
+#ifdef RW_SOLID /* contiguous block: both strides 1 (or no stride array) */
+    H4V_ASSUME(etx == 1 && ety == 1);
+#endif
+#ifdef RW_STRIDED
+    H4V_ASSUME(!(etx == 1 && ety == 1));
+#endif
     mk_image_io(xdim, ydim, 1);
     g_attr_present    = 0;
     g_ri->lattr_count = 0;
@@ -867,7 +1028,14 @@ h_GRwriteimage(void)
     RW_ND_BUF(uint8, fillv, RW_PS, RW_PS);
     g_ri->fill_value = has_fill_value ? fillv : NULL;
     int32 total      = (cx >= 1 && cy >= 1) ? cx * cy * RW_PS : 1;
+#if defined(RW_CAPDATA) && defined(H4V_CBMC) && !defined(H4V_CEX)
+    /* constant capacity instead of exactly count[X]*count[Y] pixels (symbolic object sizes are expensive; over-reads of the
+       caller's buffer are covered by the runs with the exact size) */
+    RW_ND_BUF(uint8, wdata, RW_DATACAP, RW_DATACAP);
+#else
     RW_ND_BUF(uint8, wdata, total, RW_DATACAP);
+#endif
+
     H4V_ASSUME(0 <= g_c && g_c < RW_NCOMP && 0 <= g_bb && g_bb < RW_CS);
     H4V_ASSUME(0 <= g_x && g_x < xdim && 0 <= g_y && g_y < ydim);
     H4V_ASSUME(g_i >= 0 && g_i <= RW_MAXDIM && g_j >= 0 && g_j <= RW_MAXDIM);
@@ -877,8 +1045,7 @@ h_GRwriteimage(void)
         H4V_ASSUME(g_y < sy || (g_y - sy == g_j * ety + g_ry && 0 <= g_ry && g_ry < ety));
     }
     g_off = RW_PS * (g_y * xdim + g_x) + g_c * RW_CS + g_bb;
-    /* fill model: fill lines are xdim pixels, the ghost pixel's column is materialised */
-    g_fill_item = g_x;
+    g_fill_item = -1; /* fill lines have xdim <= RW_MAXDIM items: completely materialised */
     g_fill_exp  = has_fill_value ? fillv[g_c * RW_CS + g_bb] : 0;
     int r       = GRwriteimage(riid, start, stride, count, wdata);
 #if !defined(RW_OUTSIDE) && !defined(RW_BADARGS)
@@ -886,10 +1053,16 @@ h_GRwriteimage(void)
     H4V_COVER(r == SUCCEED && g_has_data && tx == 2 && ty == 3 && cx > 1 && !stride_null, "write: existing image, strides 2 x 3");
     H4V_COVER(r == SUCCEED && g_has_data && stride_null && cx < xdim && cy > 1, "write: existing image, solid block");
 #endif
+#if (!defined(RW_XDIM) || RW_XDIM <= RW_MAXCNT) && !defined(RW_STRIDED)
     H4V_COVER(r == SUCCEED && tx == 1 && ty == 1 && sx == 0 && sy == 0 && cx == xdim && cy == ydim && !stride_null, "write: whole image");
+#endif
 #if (!defined(RW_HASDATA) || RW_HASDATA == 0) && (!defined(RW_FILLIMG) || RW_FILLIMG == 1)
+#if (!defined(RW_XDIM) || RW_XDIM > 1) && !defined(RW_STRIDED)
     H4V_COVER(r == SUCCEED && !g_has_data && fill_img && stride_null && cx < xdim && cy < ydim, "write: new image, solid block with fill");
+#endif
+#ifndef RW_SOLID
     H4V_COVER(r == SUCCEED && !g_has_data && fill_img && !stride_null && tx == 2 && ty == 2 && cy > 1, "write: new image, strided with fill");
+#endif
 #endif
 #if (!defined(RW_HASDATA) || RW_HASDATA == 0) && (!defined(RW_FILLIMG) || RW_FILLIMG == 0)
     H4V_COVER(r == SUCCEED && !g_has_data && !fill_img && !stride_null && tx == 2 && ty == 2 && cy > 1, "write: new image, strided, no fill");
@@ -1025,3 +1198,154 @@ h_lut_roundtrip(void)
     H4V_COVER(r1 == SUCCEED && r2 == SUCCEED && r3 == SUCCEED && !g_o_nolut, "lut roundtrip: existing palette");
     H4V_CANARY("lut_roundtrip end");
 }
+
+/* ---- attributes */
+#ifdef RW_ATTRS
+H4V_DECL_ND(char);
+static char g_at_name[AT_MAX][AT_NAMECAP];
+
+static void
+mk_attrs(void)
+{
+    H4V_ND(int, nat);
+    H4V_ASSUME(nat >= 0 && nat <= AT_MAX);
+    mk_image();
+    g_nat             = nat;
+    g_ri->lattr_count = nat;
+    g_ri->attr_modified = 0;
+    g_ins_n           = 0;
+    g_ins_item        = NULL;
+    H4V_HAVOC(int, g_ins_may_fail);
+    H4V_ND(char, n00);
+    H4V_ND(char, n01);
+    H4V_ND(char, n02);
+    H4V_ND(char, n10);
+    H4V_ND(char, n11);
+    H4V_ND(char, n12);
+    g_at_name[0][0] = n00;
+    g_at_name[0][1] = n01;
+    g_at_name[0][2] = n02;
+    g_at_name[0][3] = 0;
+    g_at_name[1][0] = n10;
+    g_at_name[1][1] = n11;
+    g_at_name[1][2] = n12;
+    g_at_name[1][3] = 0;
+    /* names of the list are pairwise different (established by GRsetattr itself: it never appends an existing name) */
+    H4V_ASSUME(nat < 2 || rw_strcmp(g_at_name[0], g_at_name[1]) != 0);
+    H4V_ND(int32, nt0);
+    H4V_ND(int32, nt1);
+    H4V_ND(int32, len0);
+    H4V_ND(int32, len1);
+    H4V_ND(int, cached0);
+    H4V_ND(int, cached1);
+    H4V_ASSUME((nt0 == DFNT_UINT8 || nt0 == DFNT_INT16 || nt0 == DFNT_INT32) && (nt1 == DFNT_UINT8 || nt1 == DFNT_INT16 || nt1 == DFNT_INT32));
+    H4V_ASSUME(len0 >= 1 && len0 <= 4 && len1 >= 1 && len1 <= 4);
+    RW_ND_BUF(uint8, atv0, AT_DATACAP, AT_DATACAP);
+    RW_ND_BUF(uint8, atv1, AT_DATACAP, AT_DATACAP);
+    for (int k = 0; k < AT_MAX; k++) {
+        g_at[k].index         = k;
+        g_at[k].nt            = k ? nt1 : nt0;
+        g_at[k].len           = k ? len1 : len0;
+        g_at[k].ref           = (uint16)(20 + k);
+        g_at[k].data_modified = FALSE;
+        g_at[k].new_at        = FALSE;
+        g_at[k].name          = g_at_name[k];
+        /* value cached in memory, or not read in yet */
+        g_at[k].data          = (k ? cached1 : cached0) ? (k ? atv1 : atv0) : NULL;
+        g_atn[k].data         = &g_at[k];
+        g_atn[k].key          = &g_at[k].index;
+    }
+}
+
+void
+h_GRsetattr(void)
+{
+    mk_ghosts();
+    mk_attrs();
+    H4V_ND(int32, id_nd);
+    H4V_ND(int32, attr_nt);
+    H4V_ND(int32, count);
+    H4V_ND(char, m0);
+    H4V_ND(char, m1);
+    H4V_ND(char, m2);
+    char name[AT_NAMECAP];
+    name[0] = m0;
+    name[1] = m1;
+    name[2] = m2;
+    name[3] = 0;
+#ifdef AT_BADID
+    int32 id = id_nd;
+    H4V_ASSUME(id != RW_RIID && id != RW_GRID);
+#else
+    int32 id = RW_RIID;
+#endif
+    H4V_ASSUME(attr_nt == DFNT_UINT8 || attr_nt == DFNT_INT16 || attr_nt == DFNT_INT32 || attr_nt == DFNT_NONE);
+    H4V_ASSUME(count >= 0 && count <= 4);
+    RW_ND_BUF(uint8, val, AT_DATACAP, AT_DATACAP);
+    H4V_ASSUME(g_k >= 0 && g_k < AT_DATACAP);
+    g_match = (g_nat > 0 && rw_strcmp(g_at_name[0], name) == 0) ? 0 : (g_nat > 1 && rw_strcmp(g_at_name[1], name) == 0) ? 1 : -1;
+    H4V_ND(int, oth);
+    g_oth = oth;
+    H4V_ASSUME(g_oth >= -1 && g_oth < g_nat && (g_oth == -1 || g_oth != g_match));
+    g_o_cnt     = g_ri->lattr_count;
+    g_o_attrmod = g_ri->attr_modified;
+    for (int k = 0; k < AT_MAX; k++) {
+        g_o_nt[k]    = g_at[k].nt;
+        g_o_len[k]   = g_at[k].len;
+        g_o_index[k] = g_at[k].index;
+        g_o_data[k]  = g_at[k].data;
+        g_o_byte[k]  = g_at[k].data != NULL ? ((const uint8 *)g_at[k].data)[g_k] : 0;
+    }
+    int r = GRsetattr(id, name, attr_nt, count, val);
+#ifndef AT_BADID
+    H4V_COVER(r == SUCCEED && g_match == 1 && count > g_o_len[1], "setattr: replace the second attribute, larger value");
+    H4V_COVER(r == SUCCEED && g_match == 0 && count < g_o_len[0] && g_nat == 2, "setattr: replace the first attribute, smaller value");
+    H4V_COVER(r == SUCCEED && g_match < 0 && g_nat == 2, "setattr: append a third attribute");
+    H4V_COVER(r == SUCCEED && g_match < 0 && g_nat == 0, "setattr: first attribute");
+    H4V_COVER(r == FAIL && g_match >= 0 && count >= 1 && attr_nt != DFNT_NONE, "setattr: type change refused");
+#endif
+    H4V_COVER(r == FAIL, "setattr: refused or failed");
+    H4V_CANARY("GRsetattr end");
+}
+
+void
+h_GRattrinfo(void)
+{
+    mk_ghosts();
+    mk_attrs();
+    H4V_ND(int32, id);
+    H4V_ND(int32, index);
+    H4V_ASSUME(id == RW_RIID || id == 0x60000009);
+    char  name[AT_NAMECAP];
+    int32 nt = -7, count = -7;
+    int   r  = GRattrinfo(id, index, name, &nt, &count);
+    H4V_COVER(r == SUCCEED && index == 1, "attrinfo: second attribute");
+    H4V_COVER(r == FAIL && id == RW_RIID, "attrinfo: index out of range");
+    H4V_CANARY("GRattrinfo end");
+}
+
+/* set an existing attribute again, then ask: GRattrinfo reports the new count (and the type), under the old index */
+void
+h_attr_reset_info(void)
+{
+    mk_ghosts();
+    mk_attrs();
+    H4V_ASSUME(g_nat == 2);
+    g_ins_may_fail = 0;
+    H4V_ND(int32, count);
+    H4V_ND(int, which);
+    H4V_ASSUME(count >= 1 && count <= 4 && (which == 0 || which == 1));
+    RW_ND_BUF(uint8, rval, AT_DATACAP, AT_DATACAP);
+    int32 nt_w  = g_at[which].nt;
+    int32 oth_n = g_at[1 - which].len, oth_t = g_at[1 - which].nt;
+    int   r1    = GRsetattr(RW_RIID, g_at_name[which], nt_w, count, rval);
+    char  name[AT_NAMECAP];
+    int32 q_nt = -7, q_count = -7, o_nt = -7, o_count = -7;
+    int   r2   = GRattrinfo(RW_RIID, which, name, &q_nt, &q_count);
+    int   r3   = GRattrinfo(RW_RIID, 1 - which, name, &o_nt, &o_count);
+    H4V_CHECK(r1 == FAIL || (r2 == SUCCEED && q_nt == nt_w && q_count == count), "attr: info after re-setting reports the new count under the old index");
+    H4V_CHECK(r3 == SUCCEED && o_nt == oth_t && o_count == oth_n, "attr: the other attribute is intact");
+    H4V_COVER(r1 == SUCCEED && which == 1, "attr_reset_info: second attribute re-set");
+    H4V_CANARY("attr_reset_info end");
+}
+#endif
